@@ -401,7 +401,10 @@ def restore_dirs_vc(S, prefix='restore-dirs'):
                  'RestoreCmd.run')
         tfs = c['self'].attrs['run_restore_action'].attrs['trashed_files']
         tdirs = tfs.attrs['searcher'].attrs['trash_directories']
-        uid = tdirs.attrs['uid']
+        # the uid lives on TrashDirectories1 (and, since the F10 repair, also
+        # on TrashDirectoriesImpl): read it where every version keeps it
+        uid = tdirs.attrs['trash_directories2'].attrs[
+            'trash_directories'].attrs['uid']
         ctx.ghost['uid'] = uid
         ctx.ghost['yielded'] = []
         ctx.ghost['yield_mark'] = 0
